@@ -35,7 +35,15 @@ def _alarm(*_a):
 
 
 def init_worker(mem_gb=4):
-    lim = mem_gb << 30
+    # The limit is on the address space, and a forked worker starts with its parent's: the allowance is counted from there (in the thorough
+    # tier the parent holds gigabytes of judged cases when it forks the workers of a later chunk; with an absolute limit they started above
+    # it and died in their first allocation -- "a worker process died").
+    try:
+        with open("/proc/self/statm") as f:
+            base = int(f.read().split()[0]) * os.sysconf("SC_PAGE_SIZE")
+    except (OSError, ValueError):
+        base = 0
+    lim = base + (mem_gb << 30)
     _soft, hard = resource.getrlimit(resource.RLIMIT_AS)
     # soft limit only, so that child processes (the JVM in replay mode) can lift it again
     resource.setrlimit(resource.RLIMIT_AS, (lim if hard == resource.RLIM_INFINITY else min(lim, hard), hard))
